@@ -101,6 +101,9 @@ async def history():
     try:
         ids["workflow"].append(await add("workflow"))
         ids["deployment"].append(await add("deployment"))
+        # (a port and a token on it from the start: the port of a token is read, with both rows cached, in the first steps)
+        ids["port"].append(await add("port"))
+        ids["token"].append(await add("token"))
         for step in range(rng.randint(6, 25)):
             r = rng.random()
             if r < 0.3:
@@ -138,7 +141,7 @@ async def history():
                         pass
                     trace.append(("caller edits the value it inserted", "token", tid))
             with_port = [t for t, p in token_port.items() if p is not None]
-            if with_port and rng.random() < 0.5:
+            if with_port and (step < 4 or rng.random() < 0.5):
                 tid = rng.choice(with_port)
                 for _ in range(2):  # (the second read comes after the port row may have been cached by the reads below)
                     row = await db.get_port_from_token(tid)
